@@ -215,7 +215,7 @@ def gen_layout() -> str:
     if pytolean.selftest(quiet=True):
         raise RuntimeError("harness/pytolean.py fails its self-test (run it as a script)")
     pa = importlib.import_module("Reduino.transpile.parser")
-    return pytolean.module_text("Reduino.Gen.Layout", [pa._indent_of, pa._strip_inline_comment], imports=["Reduino.Lang.Layout"])
+    return pytolean.module_text("Reduino.Gen.Layout", [pa._indent_of, pa._strip_inline_comment, (pa._collect_block, "lines")], imports=["Reduino.Lang.Layout"])
 
 
 def gen_escape() -> str:
